@@ -110,10 +110,11 @@ fn run_index(t: &[&str]) -> String {
         let offs_off = cols_off + 4 * sc;
         let sizes_off = offs_off + 4 * sc * (uc as usize);
         if wf {
-            for &id in ids.iter().filter(|&&id| id != 0) {
+            for &id in ids.iter() {
+                // exhaustive scan of the used slots (id 0 marks an unused slot: never an entry)
                 let mut scan = None;
                 for s in 0..slots {
-                    if rd_u(&b, ids_off + 8 * s, 8, be) == Some(id) {
+                    if id != 0 && rd_u(&b, ids_off + 8 * s, 8, be) == Some(id) {
                         scan = rd_u(&b, rows_off + 4 * s, 4, be).map(|x| x as u32);
                         break;
                     }
@@ -622,14 +623,31 @@ pub fn run(t: &[&str]) -> String {
     match t[0] {
         "c17.index" => run_index(t),
         "c17.findzero" => {
+            // regression for gimli 8339644: id 0 is the unused-slot marker, never an entry of the table
             let b = hex(t[2]);
-            match DebugCuIndex::new(&b, endian(t[1])).index() {
-                Ok(ix) => match ix.find(0) {
-                    None => "ok none".to_string(),
-                    // id 0 marks an unused slot: it is not an entry of the table
-                    Some(r) => format!("lookup-mismatch find(0)=Some({})", r),
-                },
-                Err(e) => err(&e),
+            let e = endian(t[1]);
+            match DebugCuIndex::new(&b, e).index() {
+                Ok(ix) => {
+                    if let Some(r) = ix.find(0) {
+                        return format!("lookup-mismatch find(0)=Some({})", r);
+                    }
+                    let empty: [u8; 0] = [];
+                    let dwp = DwarfPackage::load(
+                        |id: SectionId| -> Result<R, gimli::Error> {
+                            Ok(EndianSlice::new(if id == SectionId::DebugCuIndex || id == SectionId::DebugTuIndex { &b[..] } else { &empty[..] }, e))
+                        },
+                        EndianSlice::new(&empty[..], e),
+                    );
+                    let parent: Dwarf<R> = Dwarf::load(|_| Ok::<_, gimli::Error>(EndianSlice::new(&empty[..], e))).unwrap();
+                    match dwp {
+                        Ok(p) => match (p.find_cu(gimli::DwoId(0), &parent), p.find_tu(gimli::DebugTypeSignature(0), &parent)) {
+                            (Ok(None), Ok(None)) => "ok none".to_string(),
+                            (a, b2) => format!("lookup-mismatch find_cu(0)={:?} find_tu(0)={:?}", a.map(|x| x.is_some()).map_err(|x| errname(&x)), b2.map(|x| x.is_some()).map_err(|x| errname(&x))),
+                        },
+                        Err(er) => err(&er),
+                    }
+                }
+                Err(er) => err(&er),
             }
         }
         "c17.pkg" => run_pkg(t),
